@@ -119,15 +119,29 @@ func nJoin(e *enc, kind byte, l, r nsrc, form byte, names []string, on *cond) ns
 		} else {
 			s.sql = nSide(l) + " NATURAL " + kindKW[kind] + " " + nSide(r)
 		}
+		// the MODEL resolves the names (ParseJoinCondition): `UN n names` / `NA`; the header kept here only guides
+		// the choice of later references (when a name does not resolve the query fails anyway)
 		var pairs [][2]int
-		s.tok = append(s.tok, "U", strconv.Itoa(len(names)))
+		resolvable := true
 		for _, n := range names {
-			li, _ := resolve(l.hdr, n)
-			ri, _ := resolve(r.hdr, n)
+			li, s1 := resolve(l.hdr, n)
+			ri, s2 := resolve(r.hdr, n)
+			if s1 != 0 || s2 != 0 {
+				resolvable = false
+				break
+			}
 			pairs = append(pairs, [2]int{li, ri})
-			s.tok = append(s.tok, strconv.Itoa(li), strconv.Itoa(ri))
 		}
-		s.hdr = mergedLayout(l.hdr, r.hdr, pairs, names)
+		if form == 'u' {
+			s.tok = append(append(s.tok, "UN", strconv.Itoa(len(names))), names...)
+		} else {
+			s.tok = append(s.tok, "NA")
+		}
+		if resolvable {
+			s.hdr = mergedLayout(l.hdr, r.hdr, pairs, names)
+		} else {
+			s.hdr = joinLayout(l.hdr, r.hdr)
+		}
 	}
 	return s
 }
@@ -321,7 +335,18 @@ func namedRefCases(g *hc.Gen, pr *hc.Proc, o *hc.Out, n int) {
 			innerForm = "using"
 			names := commonNames(a.hdr, b.hdr)
 			g.Shuffle(len(names), func(i, j int) { names[i], names[j] = names[j], names[i] })
-			inner = nJoin(e, kind, a, b, 'u', names[:1+g.Intn(len(names))], nil)
+			names = names[:1+g.Intn(len(names))]
+			if g.Intn(12) == 0 {
+				extra := []string{"w", "v", "zz"}[g.Intn(3)] // perhaps unknown to one side
+				dup := false
+				for _, nm := range names {
+					dup = dup || nm == extra
+				}
+				if !dup {
+					names = append(names, extra)
+				}
+			}
+			inner = nJoin(e, kind, a, b, 'u', names, nil)
 		default:
 			innerForm = "on"
 			on := &cond{op: "cmp", cop: "=", e: []expr{{named: true, rview: "a1", rname: "id"}, {named: true, rview: "a2", rname: "id"}}}
@@ -381,16 +406,18 @@ func namedRefCases(g *hc.Gen, pr *hc.Proc, o *hc.Out, n int) {
 		both := joinLayout(l.hdr, r.hdr)
 		switch rr := g.Intn(10); {
 		case rr < 2:
-			if names := commonNames(l.hdr, r.hdr); len(names) > 0 {
-				outerForm = "using"
-				g.Shuffle(len(names), func(i, j int) { names[i], names[j] = names[j], names[i] })
-				outer = nJoin(e, okind, l, r, 'u', names[:1], nil)
+			// any column name of the left side: it may be ambiguous or unknown on a side (the model says which error)
+			nm := l.hdr[g.Intn(len(l.hdr))].name
+			if cn := commonNames(l.hdr, r.hdr); len(cn) > 0 && g.Intn(10) < 7 {
+				nm = cn[g.Intn(len(cn))]
 			}
+			outerForm = "using"
+			outer = nJoin(e, okind, l, r, 'u', []string{nm}, nil)
 		case rr < 3:
-			if names, ok := naturalNames(l.hdr, r.hdr); ok {
-				outerForm = "natural"
-				outer = nJoin(e, okind, l, r, 'n', names, nil)
-			}
+			// NATURAL whatever the headers are: an ambiguous side is an error
+			names, _ := naturalNames(l.hdr, r.hdr)
+			outerForm = "natural"
+			outer = nJoin(e, okind, l, r, 'n', names, nil)
 		}
 		if outerForm == "on" {
 			var on *cond
